@@ -3,8 +3,9 @@ import Apko.Model.Cache
 
 `cache-seq \t n \t revs \t builds \t goState \t goOutcomes`
 * `n`      number of non-final chunks per written file
-* `revs`   `r:k1.k2.k3+k1.k2.k3;r:…` — index revision `r` (its content id) ↦ packages in install order,
-           each with the content ids of its control section, data section and uncompressed tar
+* `revs`   `r:k0.k1.k2.k3+k0.k1.k2.k3;r:…` — index revision `r` (its content id) ↦ packages in install
+           order, each with the content ids of its signature section (`-` for an unsigned apk), control
+           section, data section and uncompressed tar
 * `builds` `;`-separated `on:hk:gk:K:extra` (online; HEAD announced `hk`, GET served `gk`; killed at
            marker `K` plus `extra` steps, `K` = `-` for a build that is not killed) or `off`
 * `goState`, `goOutcomes`  what the real code left / answered (canonical tokens), for the oracle
@@ -13,13 +14,15 @@ Answer: `impl \t verdict \t class` — impl = the model's `state|outcomes` after
 the property's oracle evaluated on Go's output, class `F19a` iff the model run itself passed through
 a regular incomplete file under a final name (impossible for the repaired builders: `adv_invariant`).
 
-`cache-conc \t expect \t goState \t goOutcomes \t offline` — oracle only (concurrent recovery builds,
-then one offline build).  `cache-plant \t kind \t want \t online \t offline` — planted entries: both outcomes must be `want` or `err`.
+`cache-conc \t expect \t goState \t goOutcomes \t offline \t revs` — oracle only (concurrent recovery builds,
+then one offline build).  `cache-race \t expect \t goState \t goOutcomes \t revs` — oracle only (a build paused
+inside `cachedPackage` while another one populates the cache).  `cache-plant \t kind \t want \t online \t offline` — planted entries: both outcomes must be `want` or `err`.
 -/
 namespace Apko.Driver.Cache
 open Apko.Cache
 
 structure Pkg where
+  k0 : Option Cid
   k1 : Cid
   k2 : Cid
   k3 : Cid
@@ -28,7 +31,7 @@ abbrev Revs := List (Cid × List Pkg)
 
 def parsePkg (s : String) : Option Pkg :=
   match s.splitOn "." with
-  | [a, b, c] => some ⟨a.toNat!, b.toNat!, c.toNat!⟩
+  | [z, a, b, c] => some ⟨if z == "-" then none else some z.toNat!, a.toNat!, b.toNat!, c.toNat!⟩
   | _ => none
 
 def parseRevs (s : String) : Revs :=
@@ -65,7 +68,7 @@ def tmpToken (fs : FS) (i : Nat) : Option String :=
   | _ => none
 
 def allCids (revs : Revs) (idx : List Cid) : List Cid :=
-  (idx ++ revs.map (·.1) ++ revs.flatMap fun (_, ps) => ps.flatMap fun p => [p.k1, p.k2, p.k3]).eraseDups
+  (idx ++ revs.map (·.1) ++ revs.flatMap fun (_, ps) => ps.flatMap fun p => p.k0.toList ++ [p.k1, p.k2, p.k3]).eraseDups
 
 def stateString (revs : Revs) (sim : Sim) : String :=
   let toks := (allCids revs sim.idxRevs).filterMap (advToken sim.fs) ++
@@ -107,9 +110,10 @@ def runPkgs (n : Nat) (offline : Bool) : List Pkg → FS → Nat → Option (Nat
     FS × Nat × String × Bool   -- fs, nextTmp, status ("ok" | "err" | "crash"), all observations complete
   | [], fs, nt, _, okc => (fs, nt, "ok", okc)
   | p :: rest, fs, nt, budget, okc =>
-    let prog := if offline then pkgOffline (.tmp nt) p.k1 p.k2 p.k3 n
-      else pkgBuilder (.tmp nt) (.tmp (nt + 1)) (.tmp (nt + 2)) (.tmp (nt + 3)) p.k1 p.k2 p.k3 n
-    let nt' := if offline then nt + 1 else nt + 4
+    let sg : Option (Name × Cid) := p.k0.map fun k0 => (.tmp (nt + 4), k0)
+    let prog := if offline then pkgOffline sg (.tmp nt) p.k1 p.k2 p.k3 n
+      else pkgBuilder sg (.tmp nt) (.tmp (nt + 1)) (.tmp (nt + 2)) (.tmp (nt + 3)) p.k1 p.k2 p.k3 n
+    let nt' := if offline then nt + 1 else nt + 5
     let (fs', pr, budget', stopped) := runSeg fs prog budget
     if stopped then (fs', nt', "crash", okc)
     else match halted pr with
@@ -163,6 +167,17 @@ def stateVerdict (goState : String) : Option String :=
   | some t => some s!"advertised-name-holds-other-content:{t}"
   | none => none
 
+/-- `hit_has_signature` on the real directory: where the control and the data entry of a signed package
+are there (a hit), its signature entry must be there too -/
+def depVerdict (revs : Revs) (goState : String) : Option String :=
+  let toks := if goState.isEmpty then [] else goState.splitOn ","
+  let has := fun (k : Cid) => toks.any fun t => t.startsWith s!"A{k}="
+  let bad := (revs.flatMap (·.2)).find? fun p =>
+    match p.k0 with
+    | some k0 => has p.k1 && has p.k2 && !has k0
+    | none => false
+  bad.map fun p => s!"hit-without-signature:A{p.k1},A{p.k2}-present,A{p.k0.getD 0}-absent"
+
 /-- expected outcomes: online not killed → the image of the revision served (or of the revision HEAD
 announced, when the repository changed between HEAD and GET); killed → `crash` (or that image when the
 marker lies beyond the build); offline → an error or the image of the revision the most recent online
@@ -192,18 +207,30 @@ def handle (args : List String) : Option String :=
     let sim := bs.foldl (runBuild n.toNat! revs) {}
     let impl := stateString revs sim ++ "|" ++ ",".intercalate sim.outcomes
     let outs := if goOutcomes.isEmpty then [] else goOutcomes.splitOn ","
-    let verdict := match stateVerdict goState, outcomesVerdict bs outs with
-      | some w, _ => "fail:" ++ w
-      | none, some w => "fail:" ++ w
-      | none, none => "pass"
+    let verdict := match stateVerdict goState, depVerdict revs goState, outcomesVerdict bs outs with
+      | some w, _, _ => "fail:" ++ w
+      | none, some w, _ => "fail:" ++ w
+      | none, none, some w => "fail:" ++ w
+      | none, none, none => "pass"
     some (impl ++ "\t" ++ verdict ++ "\t" ++ (if sim.regenSeen then "F19a" else "unlisted"))
-  | ["cache-conc", expect, goState, goOutcomes, offline] =>
+  | ["cache-conc", expect, goState, goOutcomes, offline, revs] =>
     let outs := if goOutcomes.isEmpty then [] else goOutcomes.splitOn ","
-    let verdict := match stateVerdict goState, outs.find? (· != expect) with
-      | some w, _ => "fail:" ++ w
-      | none, some o => s!"fail:concurrent-build:{o}:want:{expect}"
-      | none, none =>
+    let verdict := match stateVerdict goState, depVerdict (parseRevs revs) goState, outs.find? (· != expect) with
+      | some w, _, _ => "fail:" ++ w
+      | none, some w, _ => "fail:" ++ w
+      | none, none, some o => s!"fail:concurrent-build:{o}:want:{expect}"
+      | none, none, none =>
         if offline == expect || offline == "err" then "pass" else s!"fail:offline-after-recovery:{offline}"
+    some ("-\t" ++ verdict ++ "\tunlisted")
+  | ["cache-race", expect, goState, goOutcomes, revs] =>
+    -- builder B is paused inside `cachedPackage` (marker hit.probe) while builder C populates the cache,
+    -- then goes on: every build that completes must produce the cache-less image
+    let outs := if goOutcomes.isEmpty then [] else goOutcomes.splitOn ","
+    let verdict := match stateVerdict goState, depVerdict (parseRevs revs) goState, outs.find? (· != expect) with
+      | some w, _, _ => "fail:" ++ w
+      | none, some w, _ => "fail:" ++ w
+      | none, none, some o => s!"fail:build-raced-with-population:{o}:want:{expect}"
+      | none, none, none => "pass"
     some ("-\t" ++ verdict ++ "\tunlisted")
   | ["cache-plant", kind, want, on, off] =>
     -- a planted entry (truncated / foreign / stale) must never be used: the cache-less image or an error
